@@ -208,6 +208,10 @@ def _orders(ctx):
         for st in strays:
             for body in ([good, st], [st, good], [good, st, st], [pool[0], good, st, pool[2]], [good, st, pool[1], st]):
                 check_e2e(ctx, body, "stray line among classified lines")
+    # a long [Events] section: 1500 lines cycling through the kinds (thresholds on the number of lines / events)
+    longbody = [('%d = E "lyric w%d"', '%d = E "section s %d"', '%d = E "free %d"', '%d = E "lyric \"q%d\""')[i % 4] % (2 * i, i) for i in range(1500)]
+    check_e2e(ctx, longbody, "1500 lines", sync=("0 = TS 4", "0 = B 120000") + tuple("%d = B %d" % (100 * k, 60000 + k) for k in range(1, 25)))
+    check_e2e(ctx, longbody[:700] + ["garbage"] + longbody[700:], "1501 lines, one of them a stray line")
     # characters that text-level "clean-ups" like to strip: BOM / zero-width / no-break / ideographic blanks
     for sp in ("\ufeff", "\u200b", "\u00a0", "\u3000", "\U0001f3b8"):
         for tmpl in ("lyric a%sb", "lyric %s", "lyric%s x", "lyric %sx%s y", "section a%sb", "sec%stion x", "section%s", "a%sb", "%s", "x%s y"):
